@@ -61,7 +61,9 @@ fn run_case(case: &Value) -> (Vec<Value>, Option<String>) {
     // preparation (its calls are not part of the event)
     let pre = catch_unwind(AssertUnwindSafe(|| match kind {
         "LocalSetChange" => w.api("n1", "Set", &key, "v0"),
-        "LocalSetSame" | "LocalDelete" | "LocalDeleteTtl" => w.api("n1", "Set", &key, "v1"),
+        "LocalSetSame" | "LocalDelete" | "LocalDeleteTtl" | "LocalSetTtlSameValue" => w.api("n1", "Set", &key, "v1"),
+        "LocalSetEmptyAfterDelete" => w.api("n1", "Set", &key, "v1").or(w.api("n1", "Delete", &key, "")),
+        "ReplSameValueNewer" => repl(&mut w, &key, "v1", 1, 0),
         "LocalSetAfterDelete" => w.api("n1", "Set", &key, "v1").or(w.api("n1", "Delete", &key, "")),
         "ReplTombstone" => repl(&mut w, &key, "v0", 1, 0),
         "ReplStale" => repl(&mut w, &key, "v0", 2, 0),
@@ -71,7 +73,9 @@ fn run_case(case: &Value) -> (Vec<Value>, Option<String>) {
     log.lock().unwrap().clear();
     let ev = catch_unwind(AssertUnwindSafe(|| match kind {
         "LocalSetNew" | "LocalSetChange" | "LocalSetSame" | "LocalSetAfterDelete" => w.api("n1", "Set", &key, "v1"),
-        "LocalSetTtlNew" => w.api("n1", "SetTtl", &key, "v1"),
+        "LocalSetTtlNew" | "LocalSetTtlSameValue" => w.api("n1", "SetTtl", &key, "v1"),
+        "LocalSetEmptyAfterDelete" => w.api("n1", "Set", &key, ""),
+        "ReplSameValueNewer" => repl(&mut w, &key, "v1", 2, 0),
         "LocalDelete" => w.api("n1", "Delete", &key, ""),
         "LocalDeleteTtl" => w.api("n1", "DeleteTtl", &key, ""),
         "ReplNewerSet" => repl(&mut w, &key, "v1", 1, 0),
@@ -98,7 +102,7 @@ fn main() {
         let n: u64 = std::env::args().nth(3).and_then(|s| s.parse().ok()).unwrap_or(500);
         let mut rng = StdRng::seed_from_u64(seed);
         let alphabet = ['a', 'b', 'E', 'G'];
-        let kinds = ["LocalSetNew", "LocalSetChange", "LocalSetSame", "LocalSetAfterDelete", "LocalSetTtlNew", "LocalDelete", "LocalDeleteTtl", "ReplNewerSet", "ReplNewerTtl", "ReplTombstone", "ReplStale"];
+        let kinds = ["LocalSetNew", "LocalSetChange", "LocalSetSame", "LocalSetAfterDelete", "LocalSetTtlNew", "LocalDelete", "LocalDeleteTtl", "ReplNewerSet", "ReplNewerTtl", "ReplTombstone", "ReplStale", "LocalSetEmptyAfterDelete", "LocalSetTtlSameValue", "ReplSameValueNewer"];
         let fates = ["held", "dropped", "forever"];
         let word = |rng: &mut StdRng, maxlen: usize| -> String { let l = rng.random_range(0..=maxlen); (0..l).map(|_| alphabet[rng.random_range(0..4)]).collect() };
         for _ in 0..n {
